@@ -128,42 +128,44 @@ def signature(P, b):
 
 
 def token_len_rule(ctx, R):
-    """shared by C16 (trie <-> bytes), C12 (rollback byte accounting) and C19 (special tokens)"""
+    """shared by C16 (trie <-> bytes), C12 (rollback byte accounting) and C19 (special tokens).
+    token_len() recomputes, for special / empty tokens, the length of the `\\xFF [ id ]` image that decode_raw() produced:
+    3 + number of decimal digits of the id.  The digit count is arithmetic (not decided in general), but one relational
+    fact is: IF the digits are counted by repeated division by a constant B, the loop must continue exactly while the
+    value is >= B (equivalently > B-1): a test against any other constant miscounts the ids just above a power of B.
+    Other ways of counting digits (ilog10, to_string().len()) are not judged."""
     P = ctx.prog
-    # ------------------------------------------------------------------ R7 token_len mirrors decode_raw for special tokens
-    # rollback converts tokens to byte counts with token_len(), while the bytes themselves were produced by decode_raw():
-    # for special / empty tokens both use the \xFF "[" decimal-id "]" encoding, so token_len must be 3 + number of decimal
-    # digits of the id: len starts at 1, `while idx >= 10 { idx /= 10; len += 1 }`, then + 3.
     tl = ctx.body(TT + "::token_len")
-    loop_ok, div_ok, inc1, plus3 = False, False, False, False
-    for bi, e, targets, otherwise in tl.switch_edges():
-        cur, pol = F.peel_polarity(e)
-        if cur[0] == "bin" and cur[3][0] == "const" and cur[2][0] in ("local", "place"):
-            if (cur[1], cur[3][1]) in (("Ge", 10), ("Gt", 9), ("Lt", 10), ("Le", 9)):
-                loop_ok = True
-            elif cur[1] in ("Ge", "Gt", "Lt", "Le") and isinstance(cur[3][1], int) and cur[3][1] in (9, 10, 11):
-                loop_ok = False
-                ctx.violation(R, "token_len:digit-loop-bound", "token_len counts decimal digits with `%s %s`: ids such as 10, 100..109 get the "
-                              "wrong length, and rollback drops the wrong number of bytes after a special token" % (cur[1], cur[3][1]), site=tl.where(bi))
+    divs = set()
     for bi, si, st in tl.statements():
         r = st.get("r", {})
-        if st["s"] == "assign" and r.get("rv") == "bin":
-            cb_ = F.op_const_int(r["b"]) if isinstance(r.get("b"), dict) else None
-            if r["op"].startswith("Div") and cb_ == 10:
-                div_ok = True
-            if r["op"].startswith("Add") and cb_ == 1:
-                inc1 = True
-            if r["op"].startswith("Add") and cb_ == 3:
-                plus3 = True
-    ctx.check(loop_ok and div_ok and inc1 and plus3, R, "token_len:special-token-length",
-              "special / empty tokens: 3 + decimal digits (loop `>= 10`, `/ 10`, `+ 1`, `+ 3`)",
-              "TokTrie::token_len no longer computes 3 + number of decimal digits for special tokens (loop bound ok: %s, /10: %s, +1: %s, +3: %s)"
-              % (loop_ok, div_ok, inc1, plus3), site=tl.where())
+        if st["s"] == "assign" and r.get("rv") == "bin" and r["op"].startswith("Div") and isinstance(r.get("b"), dict):
+            c = F.op_const_int(r["b"])
+            if c is not None and c > 1:
+                divs.add(c)
+    n = 0
+    for bi, e, targets, otherwise in tl.switch_edges():
+        cur, pol = F.peel_polarity(e)
+        if cur[0] == "bin" and cur[1] in ("Ge", "Gt", "Lt", "Le") and cur[3][0] == "const" and isinstance(cur[3][1], int) and cur[2][0] in ("local", "place"):
+            for B in divs:
+                if abs(cur[3][1] - B) <= 1:
+                    n += 1
+                    ok = (cur[1], cur[3][1]) in (("Ge", B), ("Gt", B - 1), ("Lt", B), ("Le", B - 1))
+                    ctx.check(ok, R, "token_len:digit-loop-bound", "the division loop runs while the value is >= %d" % B,
+                              "token_len counts digits by dividing by %d but tests `%s %s`: ids such as %d, %d..%d get the wrong length, and "
+                              "rollback drops the wrong number of bytes after a special token" % (B, cur[1], cur[3][1], B, B * B, B * B + B - 1),
+                              site=tl.where(bi))
+    if n == 0:
+        ctx.ok(R, "token_len:digit-count-idiom", "no divide-and-compare digit loop present (other idiom; not judged)" if not divs else
+               "division by %s without a nearby loop bound" % sorted(divs))
+    plus3 = any(st["s"] == "assign" and st["r"].get("rv") == "bin" and st["r"]["op"].startswith("Add") and isinstance(st["r"].get("b"), dict)
+                and F.op_const_int(st["r"]["b"]) == 3 for _, _, st in tl.statements())
+    ctx.check(plus3, R, "token_len:marker-and-brackets", "the three framing bytes (\\xFF, '[', ']') are added",
+              "TokTrie::token_len no longer adds the 3 framing bytes of a special token's image", site=tl.where())
     dr = ctx.body(TT + "::decode_raw")
     tmpl = [str(o.get("k", "")) for bi, si, st in dr.statements() if st["s"] == "assign" and st["r"].get("rv") == "use" for o in [st["r"]["o"]] if "k" in o and "[" in str(o.get("k", ""))]
     ctx.check(any("[" in k and "]" in k for k in tmpl) and bool(dr.call_blocks(lambda d: d.endswith("Vec::<T, A>::push"))), R, "decode_raw:special-token-encoding",
               "decode_raw writes the marker byte followed by `[id]`", "decode_raw's encoding of special tokens changed (templates: %s)" % tmpl, site=dr.where())
-
 
 
 def builder_first_match(ctx, R):
@@ -259,23 +261,29 @@ def run(ctx):
     # tail of the word that holds bit `size`.  Accepted forms: (A) `for i in size..data.len()*32 { disallow/clear bit i }`;
     # (B) a partial-word mask plus a clear of every following word (`data[k..]`, or a word loop up to data.len()).
     cb_ = ctx.body(ceb)
-    rng = []
-    for bi, si, st in cb_.statements():
-        r = st.get("r", {})
-        if st["s"] == "assign" and r.get("rv") == "agg" and isinstance(r.get("kind"), dict) and r["kind"].get("adt", "").startswith("core::ops::range::Range"):
-            rng.append((r["kind"]["adt"], [L.role(cb_, o, depth=10) for o in r["ops"]]))
-    def to_end(role):
-        role = role.replace(" ", "")
-        return "call:len(&param:1.*.data)" in role
-    form_a = any(k.endswith("::Range") and len(rs) == 2 and rs[0] == "param:1.*.size" and to_end(rs[1]) and "Mul" in rs[1] and "32" in rs[1] for k, rs in rng)
-    form_b = any((k.endswith("::RangeFrom") and len(rs) == 1) or (k.endswith("::Range") and len(rs) == 2 and to_end(rs[1]) and "Mul" not in rs[1]) for k, rs in rng)
+    # necessary condition, independent of the form: the clearing has to depend on where the storage ends — it reads data.len()
+    # (a bit or word loop up to the end), or iterates / slices the storage to its end (iter_mut().skip(k), data[k..], fill)
+    to_end = []
+    for bi, t in cb_.calls():
+        d = t["f"].get("def", "")
+        last = d.rsplit("::", 1)[-1]
+        a0 = cb_.expr(t["args"][0]) if t["args"] else ("unknown",)
+        on_data = any(f_ == (SVT, "data") for f_ in (F.place_fields(L.strip_views(a0)[1]) if L.strip_views(a0)[0] in ("ref", "place") else []))
+        if on_data and last in ("len", "iter_mut", "iter", "fill", "as_mut_slice", "deref_mut", "last_mut", "chunks_mut"):
+            if last in ("deref_mut", "as_mut_slice"):
+                continue   # by themselves only give access to an element; counted through the iterator / range calls below
+            to_end.append(last)
+        if last in ("iter_mut", "fill", "skip") and "svob" not in d and any("data" in F.fmt_expr(cb_.expr(x)) for x in t["args"][:1]):
+            to_end.append(last)
+    rngfrom = [st for bi, si, st in cb_.statements() if st["s"] == "assign" and st["r"].get("rv") == "agg" and isinstance(st["r"].get("kind"), dict)
+               and st["r"]["kind"].get("adt", "").endswith("::RangeFrom")]
     clears = bool(cb_.call_blocks(lambda d: d in (SV + "disallow_token", SV + "set"))) or any(
-        (SVT, "data") in w or any(x[0] == (SVT, "data") for x in m) for (w, m, r_) in P.block_effects(cb_).values())
-    ctx.check((form_a or form_b) and clears, "C16-R2", "clear_excessive_bits:covers-whole-storage-tail",
-              "bits size .. data.len()*32 are all cleared (the storage may be longer than the logical size)",
-              "clear_excessive_bits does not visibly clear every storage bit from `size` to the end of `data` (ranges seen: %s): when the "
-              "storage has spare words (alloc_token_set: vocab_size + 1 bits, vocab_size a multiple of 32), negated()/set_all(true) "
-              "leave ids >= size set" % rng, site=cb_.where())
+        (SVT, "data") in w or any(x[0] == (SVT, "data") for x in m) for (w, m, r_) in P.block_effects(cb_).values()) or bool(to_end)
+    ctx.check((bool(to_end) or bool(rngfrom)) and clears, "C16-R2", "clear_excessive_bits:covers-whole-storage-tail",
+              "the clearing depends on the end of the storage (%s)" % (sorted(set(to_end)) or "data[k..]"),
+              "clear_excessive_bits never looks at where the storage ends (no data.len(), no iteration or slice to the end of `data`): it "
+              "can only clear inside the word that holds bit `size`, so when the storage has spare words (alloc_token_set: vocab_size + 1 "
+              "bits with vocab_size a multiple of 32) negated()/set_all(true) leave ids >= size set", site=cb_.where())
     sa = ctx.body(SV + "set_all")
     g = L.guard_edges(sa, lambda e: e[0] in ("place", "local") and (e[1] if e[0] == "local" else e[1][0]) == 2, True)
     clr = sa.call_blocks(ceb)
